@@ -10,7 +10,8 @@ NOARG = ["DOWNARROW", "DOWN", "LEFTARROW", "LEFT", "RIGHTARROW", "RIGHT", "UPARR
 FLIP_MOD = ["CTRL-ALT", "CTRL-SHIFT", "ALT-SHIFT", "ALT-GUI", "GUI-SHIFT"]
 UNKNOWN = ["FOO", "STRNG", "DELAYY", "HOLD", "RELEASE", "WAIT_FOR_BUTTON_PRESS", "ATTACKMODE", "DEFINE", "STRING_DELAY",
            "LED_R", "xyzzy", "ALTT", "AL", "ÉCRIRE", "ſtring2", "IF", "WHILE", "FUNC", "ELSE", "IGNORE", "REMOTE", "REM_BLOCK", "remap", "STRINGS", "DELAY_MS"]
-CHARS = list("abcxyzABZ019 !#%&*+,-./:;<=>?@[]^_{|}~()\"'$\\") + ["é", "ß", "ǆ", "İ", "ı", "λ", "Ж", "中", "😀", " ", "٣", "²", "½", " "]
+CHARS = list("abcxyzABZ019 !#%&*+,-./:;<=>?@[]^_{|}~()\"'$\\") + ["é", "ß", "ǆ", "İ", "ı", "λ", "Ж", "中", "😀", " ", "٣", "²", "½", " "] + \
+    ["\x0b", "\x0c", "\x1c", "\x1d", "\x1e", "\x85", "\u2028", "\u2029", "\r"]   # str.splitlines() breaks at these, split("\n") does not
 NAMES = ["a", "b", "i", "j", "n", "x", "count", "ab", "abc", "a1", "_t", "idx", "Tx", "FAL", "hello", "hell"]
 OPS_MATH = ["+", "-", "*", "/", "//", "%", "^"]
 OPS_COND = ["==", "!=", "<", ">", "<=", ">="]
@@ -61,8 +62,11 @@ class ExprGen:
             return "-" + str(r.randint(1, self.maxint))
         if x < 0.9:
             return "0" + str(r.randint(0, 99))
-        if x < 0.95 and self.maxint >= 30:
+        if x < 0.94 and self.maxint >= 30:
             return str(r.randint(1000, 10**6))
+        if x < 0.95 and self.maxint >= 30:
+            # integers are exact at any size: literals no double can represent
+            return r.choice(["9007199254740993", "9007199254740992", "10000000000000000000001", "18446744073709551617", str(r.randint(2**53, 2**70))])
         return str(r.randint(0, 9)) + "."
 
     def lit_float(self):
@@ -227,6 +231,7 @@ class ProgGen:
             "$ENTER -1", "$ENTER 1.5", "$ENTER TRUE", "VAR", "VAR x", "VAR 1a 5", "VAR a- 1", "VAR $x 1", "RUN", "RUN nosuch", "RETURN 1\n", "EXIST", "EXIST nosuch",
             "NOTEXIST", "START x", "STARTCODE .", "PASS x", "BREAKLOOP 1", "$STRING", "$STRING 1 +", "$STRING (1", "$STRING 1/0", '$STRING "a"-1', "$DELAY 5,6",
             "IF", "ELSE", "WHILE TRUE", "FUNC f", "REPEAT", "REPEAT x,3", "REPEAT -1", "REPEAT 1.5", "IGNORE", "ELIF TRUE", "$VAR 100", "$RUN 1.5", "$IF TRUE", "CTRL F13", "ALT  ",
+            "$$DELAY 5", "$$STRING 1+1", "$$$ENTER", "$$FOO 1+1", "$ STRING 1", "$$ALT a", "$$REM 1+1", "$$VAR x 1",
         ])
 
     def block(self, depth, n=None):
